@@ -35,6 +35,7 @@ theorem c07_on_source (max : Nat) (cores : List Nat) (hc : âˆ€ c âˆˆ cores, c â‰
 
 
 
+
 -- BEGIN PINS (written by bin/mkpins; do not edit by hand)
 /-- the Go functions this property's model and obligations were written against have exactly the
 pinned skeletons (SHA-256 prefix of the atom list) -/
